@@ -360,9 +360,12 @@ package pdf
 //@   ensures err != nil && !malformed(err) ==> s.src.fails
 //@   ensures err != io.EOF
 
+// recursion variants (C05): ReadObject -> ReadArray / ReadDict -> ReadObject strictly decreases
+// 2 * (257 - nestDepth) (+ 1 for ReadObject), so the call nesting is bounded by the 256-level cap
 //@ func (*scanner).ReadArray (s) (array, err)
 //@   tags C01 C04 C05 C19 C20
 //@   requires RN(s)
+//@   variant 2 * (257 - s.nestDepth)
 //@   assigns s.filePos, s.pos, s.used, s.err, elems(s.buf), s.src.rdpos, s.nestDepth
 //@   ensures RN(s) && scanFrame(s) && apos(s) >= old(apos(s)) && s.nestDepth == old(s.nestDepth)
 //@   ensures s.enc == nil ==> (err != nil && !malformed(err) ==> s.src.fails)
@@ -375,6 +378,7 @@ package pdf
 //@ func (*scanner).ReadDict (s) (dict, err)
 //@   tags C01 C04 C05 C19 C20
 //@   requires RN(s)
+//@   variant 2 * (257 - s.nestDepth)
 //@   assigns s.filePos, s.pos, s.used, s.err, elems(s.buf), s.src.rdpos, s.nestDepth
 //@   ensures RN(s) && scanFrame(s) && apos(s) >= old(apos(s)) && s.nestDepth == old(s.nestDepth)
 //@   ensures s.enc == nil ==> (err != nil && !malformed(err) ==> s.src.fails)
@@ -386,6 +390,7 @@ package pdf
 //@ func (*scanner).ReadObject (s) (obj, err)
 //@   tags C01 C04 C05 C19 C20
 //@   requires RN(s)
+//@   variant 2 * (257 - s.nestDepth) + 1
 //@   assigns s.filePos, s.pos, s.used, s.err, elems(s.buf), s.src.rdpos, s.nestDepth
 //@   ensures RN(s) && scanFrame(s) && apos(s) >= old(apos(s)) && s.nestDepth == old(s.nestDepth)
 //@   ensures s.enc == nil ==> (err != nil && !malformed(err) && err != io.EOF ==> s.src.fails)
